@@ -73,3 +73,18 @@ claim("C20",
        "custom stores, or message objects shared by the application is not modelled.",
   note="Trusted: go/ssa; the guarded-by table (confirmed by reading every access); sync.Mutex/RWMutex/atomic semantics; constructor-context escape reasoning (object allocated in, or freshly returned to, the function).",
   design_ref="DESIGN.md §3 C20, §2 E2")
+
+claim("C08",
+  technique="static wiring analysis over go/ssa: value identity of timer variables across closures, path enumeration of the heartbeat goroutine, canonical rendering of the period arithmetic, shape check of utils.Timer",
+  text="Necessary conditions of the heartbeat guarantee, each of which breaks it when broken: the all-types outgoing handler refreshes the very timer the heartbeat goroutine waits on; each iteration of that goroutine waits once, leaves only on session cancellation and otherwise sends exactly one Heartbeat; "
+       "the period is time.Second × negotiated HeartBtInt; Timer.Refresh stores time.Now(), TakeTimeout restarts the period, polls every timeout/10 and returns only on expiry or Close. The timing bound N + N/10 + slack itself depends on the scheduler and on blocking inside send and is NOT decided.",
+  note="Trusted: go/ssa; time.Ticker/time.Until semantics; that every outbound message passes DefaultHandler.send (C19.H1).",
+  design_ref="DESIGN.md §3 C08, §2 E10")
+
+claim("C09",
+  technique="static wiring analysis over go/ssa (timer variable identity, period arithmetic), typestate path enumeration of the probe goroutine, call-chain checks from the disconnect event to net.Conn.Close",
+  text="Necessary conditions: every inbound message refreshes the timer the probe goroutine waits on and restores WaitingTestReqAnswer→SuccessfulLogged; the period is time.Second × (HeartBtInt + max(1, HeartBtInt/20)); per expiry the goroutine disconnects iff the state was read as WaitingTestReqAnswer, "
+       "probes (state change + one TestRequest) iff it was read as SuccessfulLogged, and does nothing otherwise; Disconnect triggers the disconnect event, whose callback cancels the session and stops the handler; handler stop → Run returns → every goroutine of the connection runs the shared cancel → socket closed. "
+       "'A peer that sends at least every N seconds is never probed or disconnected' depends on arrival times and is NOT decided.",
+  note="Trusted: go/ssa; context cancellation; errgroup; the utils.Timer shape rules shared with C08.",
+  design_ref="DESIGN.md §3 C09, §2 E10")
